@@ -602,7 +602,8 @@ def _has_trailing_reset(db: DB, f: FuncInfo) -> Optional[ast.For]:
     if not body or not isinstance(body[-1], ast.For):
         return None
     lp = body[-1]
-    if "get_tensors" not in paths.called_names([lp.iter]) or not isinstance(lp.target, ast.Name):
+    it_ = paths.resolve_flow(lp.iter, lp, f.node, depth=2)
+    if "get_tensors" not in paths.called_names([it_]) or not isinstance(lp.target, ast.Name):
         return None
     v = lp.target.id
     calls = {x.func.attr: x for x in ast.walk(lp) if isinstance(x, ast.Call) and
